@@ -233,6 +233,11 @@ func (s *Sched) fireChan(t *Thread) {
 
 func (t *Thread) chanOp(hasDef bool, cases []*Case) int {
 	t.kind, t.hasDef, t.cases, t.cond = opChan, hasDef, cases, nil
+	for _, c := range cases {
+		if c.ptr != nil {
+			S.obj(c.ptr)
+		}
+	}
 	t.park()
 	if S.abort {
 		return -1
